@@ -4,6 +4,9 @@ import Pyunicorn.Lemmas.RandomC
 import Pyunicorn.Lemmas.RandomD
 import Pyunicorn.Lemmas.RandomE
 import Pyunicorn.Lemmas.RandomF
+import Pyunicorn.Lemmas.RandomG
+import Pyunicorn.Lemmas.RandomH
+import Pyunicorn.Lemmas.RandomI
 /-!
 # C17 — random models and rewirings keep their documented invariants
 
@@ -1201,5 +1204,336 @@ example : crossAdmissible exC [(0, 0), (1, 1)] = true := by decide
 example : geoAdmissible (exCfg .I) (fun i j => decide (i ≠ j ∧ i < 3 ∧ j < 3)) [(0, 1), (0, 2), (1, 2)]
     = false := by decide
 example : geoAdmissible (exCfg .I) exA [(0, 1), (2, 3)] = true := by decide
+
+/-! ## Round 4
+
+### termination as a statement about the stream of draws
+
+`geoRewire_admissible` / `crossRewire_admissible` (round 3) say what happens in *one* state.  Now:
+an accepted rewiring can be undone by the very next draw, so "an admissible swap exists" is an
+invariant of the loops; and a stream that offers every pair of indices once per requested rewiring
+(what a uniform RNG does with probability one, and what the harness' suppliers do) completes the
+run.  In every reachable state a pass through the loop body rewires with probability `≥ 1/E²`. -/
+
+/-- **an accepted rewiring is reversible, so the loop can never paint itself into a corner**: from a
+state with `GeoInv` and an admissible pair, every state of every run (any stream, any mode) again
+has an admissible pair. -/
+theorem geoRun_admissible_invariant (n : Nat) (c : GeoCfg) (iterations : Nat)
+    (draws : List (Nat × Nat)) (st st' : GeoSt) (h : geoRun c iterations draws st = some st')
+    (inv : GeoInv n st.A st.edges) (adm : geoAdmissible c st.A st.edges = true) :
+    GeoInv n st'.A st'.edges ∧ geoAdmissible c st'.A st'.edges = true :=
+  ⟨(geoRun_keeps n c iterations draws st st' h inv adm).1,
+    (geoRun_keeps n c iterations draws st st' h inv adm).2.1⟩
+
+/-- the reverse swap itself: right after `(s,t),(k,l) ↦ (s,l),(k,t)` the `if` accepts `(s,l),(k,t)` -/
+theorem geoRewire_reversible (c : GeoCfg) (A : Adj) (s t k l : Nat) (hst : s ≠ t) (hkl : k ≠ l)
+    (acc : geoAcceptM c A s t k l = true) : geoAcceptM c (rewireM A s t k l) s l k t = true := by
+  rw [geoAcceptM_eq] at acc ⊢
+  exact geoAccept_reverse c A s t k l hst hkl acc
+
+/-- **termination of `_randomly_rewire_geomodel` for fair streams**: if the state has an admissible
+pair and the stream of draws consists of (at least) `iterations − i` blocks each of which offers
+every pair of edge indices, then the run is defined and ends with exactly `iterations` rewirings —
+in every mode, for every distance matrix and tolerance. -/
+theorem geoRun_fair_terminates (n : Nat) (c : GeoCfg) (iterations : Nat)
+    (blocks : List (List (Nat × Nat))) (st : GeoSt)
+    (inv : GeoInv n st.A st.edges) (adm : geoAdmissible c st.A st.edges = true)
+    (hi : st.i ≤ iterations)
+    (cov : ∀ b ∈ blocks, Covers st.edges.length b)
+    (inr : ∀ b ∈ blocks, ∀ d ∈ b, d.1 < st.edges.length ∧ d.2 < st.edges.length)
+    (hlen : iterations ≤ st.i + blocks.length) :
+    ∃ st', geoRun c iterations blocks.flatten st = some st' ∧ st'.i = iterations := by
+  induction blocks generalizing st with
+  | nil => exact ⟨st, rfl, by simp at hlen; omega⟩
+  | cons b bs ih =>
+    obtain ⟨st1, h1⟩ := geoRun_defined c iterations b st (inr b (by simp))
+    obtain ⟨k1, k2, k3, k4⟩ := geoRun_keeps n c iterations b st st1 h1 inv adm
+    have prog := geoRun_block_progress c iterations b st st1
+      (geoCovers_witness c st b adm (cov b (by simp))) h1
+    obtain ⟨st', h2, h3⟩ := ih st1 k1 k2 (k4 hi)
+      (fun b' hb' => by rw [k3]; exact cov b' (by simp [hb']))
+      (fun b' hb' => by rw [k3]; exact inr b' (by simp [hb']))
+      (by simp only [List.length_cons] at hlen; omega)
+    refine ⟨st', ?_, h3⟩
+    rw [List.flatten_cons, geoRun_append, h1]
+    exact h2
+
+/-- **`randomly_rewire_geomodel_I/II/III` terminates**: whole method, for a simple undirected network
+with at least one admissible pair of links and a fair stream of draws. -/
+theorem geoMethod_fair_terminates (mode : GeoMode) (D : Nat → Nat → Int) (eps : Int) (n : Nat)
+    (A : Adj) (iterations : Nat) (blocks : List (List (Nat × Nat)))
+    (sym : ∀ i j, A i j = A j i) (lf : ∀ i, A i i = false)
+    (supp : ∀ i j, A i j = true → i < n ∧ j < n)
+    (adm : geoAdmissible { mode := mode, D := D, eps := eps, degree := fun v => deg A n v } A
+      (edgeList n A) = true)
+    (cov : ∀ b ∈ blocks, Covers (edgeList n A).length b)
+    (inr : ∀ b ∈ blocks, ∀ d ∈ b, d.1 < (edgeList n A).length ∧ d.2 < (edgeList n A).length)
+    (hlen : iterations ≤ blocks.length) :
+    ∃ st', geoMethod mode D eps n A iterations blocks.flatten = some st' ∧ st'.i = iterations := by
+  unfold geoMethod
+  exact geoRun_fair_terminates n _ iterations blocks ⟨A, edgeList n A, 0⟩
+    (geoInv_edgeList n A sym lf supp) adm (Nat.zero_le _) cov inr (by simpa using hlen)
+
+/-- **the cross-link rewiring loop likewise**: the swap `(a,b),(c,e) ↦ (a,e),(c,b)` can be undone,
+so an admissible pair exists in every state of every run once it exists in the first. -/
+theorem crossRun_admissible_invariant (m n swaps : Nat) (draws : List (Nat × Nat))
+    (st st' : CrossSt) (h : crossRun swaps draws st = some st')
+    (inv : CrossInv m n st.C st.links) (adm : crossAdmissible st.C st.links = true) :
+    CrossInv m n st'.C st'.links ∧ crossAdmissible st'.C st'.links = true :=
+  ⟨(crossRun_keeps m n swaps draws st st' h inv adm).1,
+    (crossRun_keeps m n swaps draws st st' h inv adm).2.1⟩
+
+/-- **termination of `_randomlyRewireCrossLinks` for fair streams**: `number_swaps − done` blocks
+each offering every pair of link indices make all requested swaps. -/
+theorem crossRun_fair_terminates (m n swaps : Nat) (blocks : List (List (Nat × Nat)))
+    (st : CrossSt) (inv : CrossInv m n st.C st.links)
+    (adm : crossAdmissible st.C st.links = true) (hi : st.done ≤ swaps)
+    (cov : ∀ b ∈ blocks, Covers st.links.length b)
+    (inr : ∀ b ∈ blocks, ∀ d ∈ b, d.1 < st.links.length ∧ d.2 < st.links.length)
+    (hlen : swaps ≤ st.done + blocks.length) :
+    ∃ st', crossRun swaps blocks.flatten st = some st' ∧ st'.done = swaps := by
+  induction blocks generalizing st with
+  | nil => exact ⟨st, rfl, by simp at hlen; omega⟩
+  | cons b bs ih =>
+    obtain ⟨st1, h1⟩ := crossRun_defined swaps b st (inr b (by simp))
+    obtain ⟨k1, k2, k3, k4⟩ := crossRun_keeps m n swaps b st st1 h1 inv adm
+    have prog := crossRun_block_progress swaps b st st1
+      (crossCovers_witness st b adm (cov b (by simp))) h1
+    obtain ⟨st', h2, h3⟩ := ih st1 k1 k2 (k4 hi)
+      (fun b' hb' => by rw [k3]; exact cov b' (by simp [hb']))
+      (fun b' hb' => by rw [k3]; exact inr b' (by simp [hb']))
+      (by simp only [List.length_cons] at hlen; omega)
+    refine ⟨st', ?_, h3⟩
+    rw [List.flatten_cons, crossRun_append, h1]
+    exact h2
+
+/-- **`RandomlyRewireCrossLinks` terminates**: whole method (cross block and link list built by the
+wrapper), every requested swap is made under a fair stream. -/
+theorem randomlyRewireCrossLinks_fair_terminates (A : Adj) (nodes1 nodes2 : List Nat) (swaps : Nat)
+    (blocks : List (List (Nat × Nat)))
+    (adm : crossAdmissible (crossBlock A nodes1 nodes2)
+      (onesList nodes1.length nodes2.length (crossBlock A nodes1 nodes2)) = true)
+    (cov : ∀ b ∈ blocks,
+      Covers (onesList nodes1.length nodes2.length (crossBlock A nodes1 nodes2)).length b)
+    (inr : ∀ b ∈ blocks, ∀ d ∈ b,
+      d.1 < (onesList nodes1.length nodes2.length (crossBlock A nodes1 nodes2)).length ∧
+      d.2 < (onesList nodes1.length nodes2.length (crossBlock A nodes1 nodes2)).length)
+    (hlen : swaps ≤ blocks.length) :
+    ∃ r, randomlyRewireCrossLinks A nodes1 nodes2 swaps blocks.flatten = some r ∧
+      r.2.done = swaps := by
+  obtain ⟨st', h1, h2⟩ := crossRun_fair_terminates nodes1.length nodes2.length swaps blocks
+    ⟨crossBlock A nodes1 nodes2, onesList nodes1.length nodes2.length (crossBlock A nodes1 nodes2), 0⟩
+    (crossInv_onesList _ _ _ (crossBlock_supp A nodes1 nodes2)) adm (Nat.zero_le _) cov inr
+    (by simpa using hlen)
+  exact ⟨(overwrite A st'.C nodes1 nodes2, st'), by simp [randomlyRewireCrossLinks, h1], h2⟩
+
+/-! ### the conditions as the C compiler evaluates them (binary32), for *all* data
+
+`D` is `FIELD_t` = binary32 and `eps` a C `float` (`source_float_types`); every subtraction inside
+`cond_len_c1/2` is rounded.  Distances and tolerance are integers in units of a power of two (every
+finite binary32 number is an integer multiple of `2^-149`): no restriction to the dyadic data of the
+earlier rounds. -/
+
+/-- the C types the conditions compute in, read from `numerics.pyx` / `types.pxd` -/
+theorem source_float_types : condFieldType = "cnp.float32_t" ∧ condEpsType = "float" := by
+  constructor <;> decide
+
+/-- **soundness of the floating-point test**: for every rounding under which a rounded difference
+below `eps` was below `eps` before rounding, whatever the compiled `if` accepts satisfies the exact
+conditions: disjoint links, new links absent, degree condition, and C1 / C2 with the *exact*
+differences `|D[..] − D[..]| < eps`. -/
+theorem float_conditions_sound (rnd : Int → Int) (c : GeoCfg) (A : Adj) (s t k l : Nat)
+    (hf : Faithful rnd c.eps) (h : geoAcceptFl rnd c A s t k l = true) :
+    geoAccept c A s t k l = true := by
+  rw [← geoAcceptM_eq]; exact geoAcceptFl_sound rnd c A s t k l hf h
+
+/-- **binary32 round-to-nearest-even is such a rounding whenever `eps` is a binary32 number** (it is:
+`eps` is a C `float`), for every distance matrix; and so is every monotone rounding fixing `±eps`. -/
+theorem binary32_faithful (eps : Int) (he : Rep 24 eps.natAbs) : Faithful rnd32 eps :=
+  rndP_faithful 24 (by decide) eps he
+
+theorem monotone_rounding_faithful (rnd : Int → Int) (eps : Int)
+    (mono : ∀ x y, x ≤ y → rnd x ≤ rnd y) (fix1 : rnd eps = eps) (fix2 : rnd (-eps) = -eps) :
+    Faithful rnd eps := faithful_of_mono rnd eps mono fix1 fix2
+
+/-- on data whose differences stay below `2^24` units (the quarter-integer data of rounds 1–3, any
+power-of-two rescaling of it) binary32 evaluates the conditions *exactly* — formerly trusted base -/
+theorem binary32_exact_on_small (D : Nat → Nat → Int) (eps : Int) (s t k l : Nat)
+    (hs : ∀ a b c d, (D a b - D c d).natAbs < 2 ^ 24) :
+    condLenC1R rnd32 D eps s t k l = condLenC1 D eps s t k l ∧
+    condLenC2R rnd32 D eps s t k l = condLenC2 D eps s t k l :=
+  condLenR_exact rnd32 D eps s t k l (fun a b c d => rndP_small 24 _ (hs a b c d))
+
+/-- **a run of the compiled (binary32) kernel is a run of the exact kernel on a sub-stream of its
+draws** — so every theorem of this file that holds for all streams holds for the compiled kernel,
+with the exact tolerance. -/
+theorem float_run_is_exact_run (rnd : Int → Int) (c : GeoCfg) (iterations : Nat)
+    (draws : List (Nat × Nat)) (st st' : GeoSt) (hf : Faithful rnd c.eps)
+    (h : geoRunFl rnd c iterations draws st = some st') :
+    ∃ draws', draws'.Sublist draws ∧ geoRun c iterations draws' st = some st' :=
+  geoRunFl_refines rnd c iterations draws st st' hf h
+
+/-- **`randomly_rewire_geomodel_I/II/III` as compiled, whole method, all data**: with `D`, `eps` the
+binary32 arrays the wrapper hands over and the conditions evaluated in binary32, the result is a
+simple undirected graph with every degree and the number of links unchanged, at most `iterations`
+rewirings, and the links before / after can be matched one to one with *exact* length differences
+of at most (number of rewirings)·`eps`; in model III the degree pair at every position of the edge
+list is unchanged. -/
+theorem geoMethodFl_spec (mode : GeoMode) (D : Nat → Nat → Int) (eps : Int) (n : Nat)
+    (A : Adj) (iterations : Nat) (draws : List (Nat × Nat)) (st' : GeoSt)
+    (sym : ∀ i j, A i j = A j i) (lf : ∀ i, A i i = false)
+    (supp : ∀ i j, A i j = true → i < n ∧ j < n) (he : Rep 24 eps.natAbs)
+    (h : geoMethodFl rnd32 mode D eps n A iterations draws = some st') :
+    (∀ a b, st'.A a b = st'.A b a) ∧ (∀ a, st'.A a a = false) ∧
+    (∀ v, deg st'.A n v = deg A n v) ∧ total st'.A n n = total A n n ∧
+    GeoInv n st'.A st'.edges ∧ st'.i ≤ iterations ∧
+    (∃ σ τ, BijOn (edgeList n A).length σ τ ∧ st'.edges.length = (edgeList n A).length ∧
+      ∀ p e, (edgeList n A)[p]? = some e → ∃ e', st'.edges[σ p]? = some e' ∧
+        closeBy ((st'.i : Int) * eps) (len D e) (len D e')) ∧
+    (mode = .III → ∀ (p : Nat) (e : Nat × Nat), (edgeList n A)[p]? = some e → ∃ e' : Nat × Nat, st'.edges[p]? = some e' ∧
+      (deg st'.A n e'.1, deg st'.A n e'.2) = (deg A n e.1, deg A n e.2)) := by
+  unfold geoMethodFl at h
+  obtain ⟨draws', -, hrun⟩ := float_run_is_exact_run rnd32 _ iterations draws _ st'
+    (binary32_faithful eps he) h
+  have hm : geoMethod mode D eps n A iterations draws' = some st' := hrun
+  obtain ⟨i1, i2, -, i4, i5, i6, i7⟩ :=
+    geoMethod_invariants mode D eps n A iterations draws' st' sym lf supp hm
+  refine ⟨i1, i2, i4, i5, i6, i7, geoMethod_link_lengths mode D eps n A iterations draws' st' hm, ?_⟩
+  intro hIII p e hp
+  subst hIII
+  exact geoMethod_degree_pairs D eps n A iterations draws' st' sym lf supp hm p e hp
+
+/-! ### the draw as numpy evaluates it (binary64) -/
+
+/-- **`np.floor(rd.random() * E)` / `int(random.random() * N)` with the product rounded to binary64**:
+for every round-to-nearest multiplication (any tie rule), every double `0 ≤ u < 1` and every
+`1 ≤ E < 2^31` (`int E`; `NODE` is int32) the index lies in `[0, E)` — the double rounding of `u·E`
+can never produce `E`. -/
+theorem draw_in_range_binary64 (rnd : Rat → Rat) (hn : B64.Nearest rnd) (u : Rat) (hu : B64.IsB64 u)
+    (h0 : 0 ≤ u) (h1 : u < 1) (E : Int) (hE : 1 ≤ E) (hE31 : E < 2 ^ 31) :
+    (0 ≤ geoDrawR rnd u E ∧ geoDrawR rnd u E < E) ∧
+    (0 ≤ sparseDrawR rnd u E ∧ sparseDrawR rnd u E < E) :=
+  ⟨geoDrawR_range rnd hn u hu h0 h1 E hE hE31, geoDrawR_range rnd hn u hu h0 h1 E hE hE31⟩
+
+/-- **no IndexError, stated for the doubles the RNG returns and the product as computed** -/
+theorem geoMethod_defined_binary64 (rnd : Rat → Rat) (hn : B64.Nearest rnd) (mode : GeoMode)
+    (D : Nat → Nat → Int) (eps : Int) (n : Nat) (A : Adj) (iterations : Nat)
+    (us : List (Rat × Rat)) (E : Nat)
+    (sym : ∀ i j, A i j = A j i) (lf : ∀ i, A i i = false)
+    (hE : total A n n = 2 * (E : Int)) (hpos : 0 < E) (h31 : (E : Int) < 2 ^ 31)
+    (hu : ∀ u ∈ us, (B64.IsB64 u.1 ∧ 0 ≤ u.1 ∧ u.1 < 1) ∧ (B64.IsB64 u.2 ∧ 0 ≤ u.2 ∧ u.2 < 1)) :
+    ∃ st', geoMethod mode D eps n A iterations
+      (us.map fun u => ((geoDrawR rnd u.1 E).toNat, (geoDrawR rnd u.2 E).toNat)) = some st' := by
+  apply geoMethod_defined mode D eps n A iterations _ E sym lf hE
+  intro d hd
+  simp only [List.mem_map] at hd
+  obtain ⟨u, hu', rfl⟩ := hd
+  obtain ⟨⟨a, a0, a1⟩, ⟨b, b0, b1⟩⟩ := hu u hu'
+  have r1 := geoDrawR_range rnd hn u.1 a a0 a1 E (by omega) h31
+  have r2 := geoDrawR_range rnd hn u.2 b b0 b1 E (by omega) h31
+  simp only
+  omega
+
+/-! ### `_randomlySetCrossLinks`: termination for fair streams -/
+
+/-- a block of draws offers every cell of the `m × n` cross matrix -/
+def Covers2 (m n : Nat) (block : List (Nat × Nat)) : Prop :=
+  ∀ i j, i < m → j < n → (i, j) ∈ block
+
+private theorem crossSetRun_done (k : Nat) (r : List (Nat × Nat)) (C : Adj) (done : Nat) (h : ¬ done < k) :
+    crossSetRun k r C done = (C, done) := by
+  cases r with
+  | nil => rfl
+  | cons d ds => obtain ⟨i, j⟩ := d; rw [crossSetRun_cons, if_neg h]
+
+private theorem crossSetRun_append (k : Nat) (b r : List (Nat × Nat)) (C : Adj) (done : Nat) :
+    crossSetRun k (b ++ r) C done
+      = crossSetRun k r (crossSetRun k b C done).1 (crossSetRun k b C done).2 := by
+  induction b generalizing C done with
+  | nil => rfl
+  | cons d ds ih =>
+    obtain ⟨i, j⟩ := d
+    rw [List.cons_append, crossSetRun_cons, crossSetRun_cons]
+    split
+    · split
+      · exact ih C done
+      · exact ih _ _
+    · rename_i h; exact (crossSetRun_done k r C done h).symm
+
+/-- a block that contains a free cell sets at least one link (unless the loop has finished) -/
+private theorem crossSetRun_block_progress (m n k : Nat) (block : List (Nat × Nat)) (C : Adj) (done : Nat)
+    (hd : ∀ d ∈ block, d.1 < m ∧ d.2 < n) (hlt : done < k)
+    (hw : ∃ d ∈ block, C d.1 d.2 = false) : done + 1 ≤ (crossSetRun k block C done).2 := by
+  induction block generalizing C done with
+  | nil => obtain ⟨d, hd', -⟩ := hw; cases hd'
+  | cons d ds ih =>
+    obtain ⟨i, j⟩ := d
+    have hd' : ∀ d ∈ ds, d.1 < m ∧ d.2 < n := fun d h => hd d (by simp [h])
+    rw [crossSetRun_cons, if_pos hlt]
+    split
+    · rename_i hc
+      apply ih C done hd' hlt
+      obtain ⟨d0, hm, hf⟩ := hw
+      rcases List.mem_cons.1 hm with rfl | hmem
+      · simp only at hf; rw [hc] at hf; cases hf
+      · exact ⟨d0, hmem, hf⟩
+    · exact (crossSetRun_spec m n k ds (C.set i j true) (done + 1) hd').2.1
+
+/-- **termination of `_randomlySetCrossLinks` / `RandomlySetCrossLinks_sparse` for fair streams**: when
+the requested number fits into the free cells (`setCount_le` guarantees it for the public methods,
+which start from the empty matrix) and the stream consists of `k − done` blocks each offering every
+cell, all `k` links are placed. -/
+theorem crossSet_fair_terminates (m n k : Nat) (blocks : List (List (Nat × Nat))) (C : Adj) (done : Nat)
+    (hk : done ≤ k) (room : total C m n + ((k - done : Nat) : Int) ≤ (m : Int) * (n : Int))
+    (cov : ∀ b ∈ blocks, Covers2 m n b) (inr : ∀ b ∈ blocks, ∀ d ∈ b, d.1 < m ∧ d.2 < n)
+    (hlen : k ≤ done + blocks.length) : (crossSetRun k blocks.flatten C done).2 = k := by
+  induction blocks generalizing C done with
+  | nil => simp at hlen; simp [crossSetRun]; omega
+  | cons b bs ih =>
+    rw [List.flatten_cons, crossSetRun_append]
+    obtain ⟨s1, s2, s3, -⟩ := crossSetRun_spec m n k b C done (inr b (by simp))
+    have prog : done < k → done + 1 ≤ (crossSetRun k b C done).2 := by
+      intro hlt
+      obtain ⟨i, j, hi, hj, hf⟩ := crossSet_progress m n C (by omega)
+      exact crossSetRun_block_progress m n k b C done (inr b (by simp)) hlt
+        ⟨(i, j), cov b (by simp) i j hi hj, hf⟩
+    apply ih _ _ (s3 hk)
+    · rw [s1]; have := s3 hk; omega
+    · exact fun b' hb' => cov b' (by simp [hb'])
+    · exact fun b' hb' => inr b' (by simp [hb'])
+    · simp only [List.length_cons] at hlen
+      rcases Nat.lt_or_ge done k with hlt | hge
+      · have := prog hlt; omega
+      · omega
+
+example : Covers2 1 2 [(0, 1), (0, 0)] := by
+  intro i j hi hj
+  have h1 : i = 0 := by omega
+  have h2 : j = 0 ∨ j = 1 := by omega
+  subst h1; rcases h2 with rfl | rfl <;> simp
+
+/-! non-vacuity, round 4 -/
+
+example : Covers 2 [(0, 0), (0, 1), (1, 0), (1, 1)] := by
+  intro p q hp hq
+  have h1 : p = 0 ∨ p = 1 := by omega
+  have h2 : q = 0 ∨ q = 1 := by omega
+  rcases h1 with rfl | rfl <;> rcases h2 with rfl | rfl <;> simp
+/-- two covering blocks, two rewirings (the second undoes the first) -/
+example : (geoRun (exCfg .II) 2 ([[(0, 0), (0, 1), (1, 0), (1, 1)], [(0, 0), (0, 1), (1, 0), (1, 1)]].flatten)
+    ⟨exA, [(0, 1), (2, 3)], 0⟩).map (fun s => (s.edges, s.i)) = some ([(0, 1), (2, 3)], 2) := by decide
+example : geoAdmissible (exCfg .II) exA [(0, 1), (2, 3)] = true := by decide
+/-- ties to even: `2^24 + 1 ↦ 2^24`, `2^24 + 3 ↦ 2^24 + 4`; small magnitudes and negatives -/
+example : rnd32 16777217 = 16777216 ∧ rnd32 16777219 = 16777220 ∧ rnd32 (-16777219) = -16777220
+    ∧ rnd32 12345 = 12345 ∧ rnd32 33554434 = 33554432 ∧ rnd32 33554438 = 33554440 := by decide +kernel
+example : Rep 24 (16777220 : Int).natAbs := ⟨4194305, 2, by decide, by decide⟩
+/-- a difference of `2^24 + 3` units against `eps = 2^24 + 4`: the exact test accepts, binary32 rounds
+the difference up to `eps` and rejects — the compiled kernel accepts *fewer* swaps, never more -/
+example : condLenC2 (fun i j => if i = 0 ∧ j = 1 then 16777219 else 0) 16777220 0 1 2 3 = true ∧
+    condLenC2R rnd32 (fun i j => if i = 0 ∧ j = 1 then 16777219 else 0) 16777220 0 1 2 3 = false := by
+  decide +kernel
+example : Faithful rnd32 16777220 := binary32_faithful _ ⟨4194305, 2, by decide, by decide⟩
+/-- the largest double below 1 times `E = 3`, rounded to binary64, is still below 3 -/
+example : geoDrawR rnd64 (9007199254740991 / 9007199254740992) 3 = 2 := by decide +kernel
 
 end Pyunicorn.Random
